@@ -66,6 +66,10 @@ CLAIMED["C19"] = dict(engine="client-life", tech="TLA+ model ClientLife.tla (cac
 CLAIMED["C15"] = dict(engine="blocking", tech="TLA+ model Blocking.tla (wait automaton per operation x transport: select / 5 s connection-deadline poll / wait for the polling receiver / TLS handshake / no wake-up; invariant Bounded against the delay the property states) checked by TLC; every model case timed on the real operation (transport Send/Receive/Accept, the four channel send operations, ProcessCommand, client and server EstablishSession, client FinishSession, server FinishSession / FailSession, each on TCP, WebSocket and in-process, plus the TLS upgrade on TCP) against a peer that makes no progress; TLC monitor BlockObs (C15_Bounded, C15_ReturnsError)",
    text="All operation x transport x deadline/cancel x moment combinations of the model are executed for real (thorough: three times each); the measured latency between the end of the context and the return of the call is checked by TLC against the property's bound.", ref="DESIGN.md 3.7, 5 (C15), 10.3",
    note="Wall-clock measurement with 1 s slack; peers: silent (reads), not reading with full socket buffers / stalled consumer (writes); a call not back 4 s after its bound counts as hanging; trusted: TLC, CommunityModules Json, Go runtime, crypto/tls, gorilla/websocket.")
+CLAIMED["C04"]["engine"] = "channel+transport"
+CLAIMED["C04"]["tech"] += "; plus TLA+ model Transport.tla (contract of a transport pair: FIFO, no loss before the close is reported) enumerated by TLC, every operation sequence executed on real in-process / TCP / WebSocket pairs, TLC monitor TransObs (C04_TransportOrder, C04_TransportNoLoss)"
+CLAIMED["C13"]["engine"] = "channel+transport"
+CLAIMED["C13"]["tech"] += "; plus Transport.tla sequences on real pairs, TLC monitor TransObs (C13_TransportClosed: an end that closed refuses to send and receive and reports itself as not connected)"
 CLAIMED["C06"]["engine"] = "hs-server+hs-client"
 CLAIMED["C06"]["note"] = HS_NOTE + " Both roles: server role on HsServer behaviours, client role on HsClient behaviours."
 CLAIMED["C06"]["tech"] += " and HsClient.tla + C06_ClientSendGuard for the client role"
@@ -99,6 +103,9 @@ m = {
            "baseline_off_cmd": "cd /repo && GOFLAGS=-mod=mod GOPROXY=off GOSUMDB=off GOTOOLCHAIN=local go test -json -vet=off -count=1 -timeout 25m ./...",
            "source_commits": hook_commits, "add_only": True},
  "engines": [
+   {"name": "transport", "path": "spec/Transport.tla spec/TransportMC.tla spec/TransProps.tla spec/TransObs.tla harness/transd tools/engines/transport.py",
+    "serves_properties": ["C04", "C13"],
+    "kind_free_text": "TLA+ contract of a connected transport pair (in-process, TCP, WebSocket) with every bounded operation sequence enumerated by TLC, each executed on a real pair and compared step by step, TLC trace monitor"},
    {"name": "blocking", "path": "spec/Blocking.tla spec/BlockingMC.tla spec/BlockObs.tla harness/blockd tools/engines/blocking.py",
     "serves_properties": ["C15"],
     "kind_free_text": "TLA+ wait automata of the context-taking operations checked by TLC against the stated bound, each case timed on the real operation, TLC trace monitor"},
